@@ -179,7 +179,7 @@ func (s *Solver) run(body string, vars []string, timeout time.Duration) QueryRes
 	return res
 }
 
-var modelRe = regexp.MustCompile(`\(\|?([A-Za-z0-9_.$:\-\[\]<>/#@*+ ]+?)\|?\s+(#x[0-9a-fA-F]+|#b[01]+|true|false|\(fp #b[01] #b[01]+ #b[01]+\)|\(_ [+-]?[A-Za-z]+ \d+ \d+\)|\(_ bv\d+ \d+\)|\(- \d+\)|\d+)\)`)
+var modelRe = regexp.MustCompile(`\(\|?([A-Za-z0-9_.$:\-\[\]<>/#@*+ ]+?)\|?\s+(#x[0-9a-fA-F]+|#b[01]+|true|false|\(fp #b[01] #[bx][0-9a-fA-F]+ #[bx][0-9a-fA-F]+\)|\(_ [+-]?[A-Za-z]+ \d+ \d+\)|\(_ bv\d+ \d+\)|\(- \d+\)|\d+)\)`)
 
 func parseModel(s string) map[string]string {
 	m := map[string]string{}
@@ -223,9 +223,21 @@ func modelValue(lit string) (uint64, bool) {
 		if len(f) != 4 {
 			return 0, false
 		}
-		sg, _ := strconv.ParseUint(f[1][2:], 2, 64)
-		ex, _ := strconv.ParseUint(f[2][2:], 2, 64)
-		mn, _ := strconv.ParseUint(f[3][2:], 2, 64)
+		// each part is printed in binary or, when its width is a multiple of four (the 52-bit significand), in hex
+		part := func(s string) (uint64, bool) {
+			base := 2
+			if strings.HasPrefix(s, "#x") {
+				base = 16
+			}
+			v, err := strconv.ParseUint(s[2:], base, 64)
+			return v, err == nil
+		}
+		sg, ok1 := part(f[1])
+		ex, ok2 := part(f[2])
+		mn, ok3 := part(f[3])
+		if !ok1 || !ok2 || !ok3 {
+			return 0, false
+		}
 		return sg<<63 | ex<<52 | mn, true
 	case strings.HasPrefix(lit, "(_ "):
 		f := strings.Fields(strings.Trim(lit, "()"))
